@@ -194,6 +194,7 @@ class Fx:
         self.F = ctx.F
         self._sum = {}
         self.unclassified = []      # (fn, call) pairs the interpreter has no summary for
+        self.error_sites = []       # (fn id, call, carries-own-state?, detail) for Error::fatal / Error::recoverable
         self._impl_index = None
 
     # -- type arguments --------------------------------------------------
@@ -583,6 +584,7 @@ class Fx:
         if callee_is(c, "Error::fatal", "Error::recoverable"):
             sev = "fatal" if callee_is(c, "Error::fatal") else "recoverable"
             st = val(args[0])
+            self.error_sites.append((fn.id, c, bool(st and st[0] == "state"), short(args[0], 4)))
             if not (st and st[0] == "state"):
                 run.opaque.append("%s built with a state that is not the instruction's own: %s" % (sev, short(args[0], 4)))
             run.vals[c] = ("error", sev, self.cause_of(run, args[1], binding))
